@@ -14,6 +14,9 @@ from symx.values import SymStr, sym_string
 from . import common
 
 PATTERNS = None
+CALLERS = {}       # (pattern, flags) -> name of the mako function that applies it
+# how a subject string reaches the pattern when it is not the template itself
+EMBED = {"_parse_attributes": "<%include file=\"{}\"/>", "adjust_whitespace": "<%\n{}\n%>", "in_multi_line": "<%\n{}\n%>", "_in_multi_line": "<%\n{}\n%>"}
 
 
 def live_patterns(L):
@@ -28,15 +31,42 @@ def live_patterns(L):
     src = open(L.__file__).read()
     mod.__dict__["__name__"] = "mako.lexer_census"
     exec(compile(src, L.__file__, "exec"), mod.__dict__)
-    corpus = list(CORPUS.values()) + [realops._C20_CORPUS, "<%text>x</%text>${a | h}\n%% x\n## c\n<%doc>d</%doc>\\\n</%a>", "<%a b='c'/>", "% if x:\n% endif\n"]
-    for t in corpus:
-        try:
-            mod.Lexer(t).parse()
-        except Exception:
-            pass
-    pats = [(k[0], int(k[1] or 0)) for k in mod._regexp_cache]
-    pats.append((mod.Lexer._coding_re.pattern, int(mod.Lexer._coding_re.flags & ~real_re.U)))
-    return sorted(set(pats))
+    corpus = list(CORPUS.values()) + [realops._C20_CORPUS, "<%text>x</%text>${a | h}\n%% x\n## c\n<%doc>d</%doc>\\\n</%a>", "<%a b='c'/>", "% if x:\n% endif\n",
+                                      "<%include file=\"a${b}c${d}\"/>", "<%\n    x = 'a' # c\n    y = \"\"\"t\"\"\"\n%>"]
+    # every regex any mako module applies while these templates are lexed (node constructors and re-margining included), with
+    # the function that applied it: recorded at re's own compile cache
+    used = {}
+    orig_compile = real_re._compile
+    import sys as _sys
+
+    def spy(pattern, flags):
+        if isinstance(pattern, str):
+            f = _sys._getframe(1)
+            caller = None
+            while f is not None:
+                name = f.f_globals.get("__name__", "")
+                if name.startswith("mako.") and name != "mako.lexer_census" or name == "mako.lexer_census":
+                    caller = f.f_code.co_name
+                    break
+                f = f.f_back
+            if caller is not None:
+                used.setdefault((pattern, int(flags) & ~int(real_re.U)), caller)
+        return orig_compile(pattern, flags)
+    real_re._compile = spy
+    try:
+        for t in corpus:
+            try:
+                mod.Lexer(t).parse()
+            except Exception:
+                pass
+    finally:
+        real_re._compile = orig_compile
+    pats = {(k[0], int(k[1] or 0)): "match_reg" for k in mod._regexp_cache}
+    pats[(mod.Lexer._coding_re.pattern, int(mod.Lexer._coding_re.flags & ~real_re.U))] = "decode_raw_stream"
+    for k, caller in used.items():
+        pats.setdefault(k, caller)
+    CALLERS.update(pats)
+    return sorted(pats)
 
 
 def loops_of(tree, path=()):
@@ -99,31 +129,53 @@ def on_loop(p, r, exc, acc):
 def pump_time(src, flags, pump):
     """try to make the REAL regex engine backtrack exponentially: prefix + pump*k + failing suffix"""
     pat = _re.compile(src, flags)
-    lead = ""
-    try:
-        for op, av in _parser.parse(src, flags):
+    def literals(tree):
+        """the literal characters the pattern starts with (looking into leading groups); second value: went through everything"""
+        out = ""
+        for op, av in tree:
             if op is C.LITERAL:
-                lead += chr(av)
+                out += chr(av)
+            elif op is C.SUBPATTERN:
+                sub, whole = literals(av[3])
+                out += sub
+                if not whole:
+                    return out, False
             else:
-                break
+                return out, False
+        return out, True
+    try:
+        lead = literals(_parser.parse(src, flags))[0]
     except Exception:
-        pass
-    best = None
+        lead = ""
     for prefix in (lead + "a", lead, lead + "a ", ""):
         for suffix in ("X", "\x00", "!", ""):
-            times = []
-            for k in (10, 12, 14, 16, 18):
-                s = prefix + pump * k + suffix
-                t = time.perf_counter()
-                pat.match(s)
-                times.append(time.perf_counter() - t)
-                if times[-1] > 2.0:
-                    break
-            ratios = [b / a for a, b in zip(times, times[1:]) if a > 2e-3]
-            if len(ratios) >= 2 and min(ratios[-2:]) > 2.5:
+            times = growth_times(lambda s_: pat.match(s_), prefix, pump, suffix)
+            if exponential(times):
                 return dict(prefix=prefix, suffix=suffix, times=[round(x, 4) for x in times])
-            best = best or dict(prefix=prefix, suffix=suffix, times=[round(x, 5) for x in times])
     return None
+
+
+def growth_times(run, prefix, pump, suffix, embed="{}"):
+    """running times for 2, 3, 4, ... repetitions of the pump, until one run takes more than 1.5 s (or 60 repetitions)"""
+    times = []
+    for k in range(2, 61):
+        s_ = embed.replace("{}", prefix + pump * k + suffix)
+        t = time.perf_counter()
+        run(s_)
+        times.append(time.perf_counter() - t)
+        if times[-1] > 1.5:
+            break
+    return times
+
+
+def exponential(times):
+    """between the first run above 20 ms and the last one, every further repetition multiplies the time by more than 1.4 on
+    average, over at least four measurements (a polynomial's step factor tends to 1)"""
+    big = [(k, t) for k, t in enumerate(times) if t > 0.02]
+    if len(big) < 4:
+        return False
+    (k0, t0), (k1, t1) = big[0], big[-1]
+    return (t1 / t0) ** (1.0 / (k1 - k0)) > 1.4
 
 
 def make_replay(c):
@@ -137,17 +189,21 @@ print("pattern:", CASE["pattern"][:120].replace("\\\\n", " "))
 print("pump:", repr(CASE["pump"]), "prefix:", repr(CASE.get("prefix")), "suffix:", repr(CASE.get("suffix")))
 if CASE.get("prefix") is None:
     print("no exponential growth measured on the real engine"); print("HOLDS"); sys.exit(0)
-times = []
-for k in (10, 12, 14, 16, 18):
-    s = CASE["prefix"] + CASE["pump"] * k + CASE["suffix"]
-    t = time.perf_counter()
-    try: Lexer(s).parse()
+def run(s_):
+    try: Lexer(s_).parse()
     except exceptions.MakoException: pass
-    times.append(time.perf_counter() - t)
-    if times[-1] > 5: break
-print("lexing times for pump counts 10,12,14,..:", [round(x, 4) for x in times])
-ratios = [b / a for a, b in zip(times, times[1:]) if a > 2e-3]
-bad = "lexing time grows exponentially with the input length" if len(ratios) >= 2 and min(ratios[-2:]) > 2.5 else None
+times = []
+for k in range(2, 61):
+    s_ = CASE.get("embed", "{}").replace("{}", CASE["prefix"] + CASE["pump"] * k + CASE["suffix"])
+    t = time.perf_counter(); run(s_); times.append(time.perf_counter() - t)
+    if times[-1] > 1.5: break
+print("lexing times for 2, 3, 4, .. repetitions of the pump:", [round(x, 4) for x in times])
+big = [(k, t) for k, t in enumerate(times) if t > 0.02]
+bad = None
+if len(big) >= 4:
+    per_step = (big[-1][1] / big[0][1]) ** (1.0 / (big[-1][0] - big[0][0]))
+    print("average factor per extra repetition of the pump: %.2f" % per_step)
+    if per_step > 1.4: bad = "lexing time grows exponentially with the input length (x%.1f per repetition)" % per_step
 print("VIOLATED: " + bad if bad else "HOLDS")
 sys.exit(1 if bad else 0)
 """.replace("__CASE__", repr(i))
@@ -196,6 +252,7 @@ def run(check, tier, cands_out):
         seen.add(c["input"]["pattern"])
         pt = pump_time(c["input"]["pattern"], c["input"]["flags"], c["input"]["pump"])
         c["input"].update(pt or {"prefix": None, "suffix": None})
+        c["input"]["embed"] = EMBED.get(CALLERS.get((c["input"]["pattern"], c["input"]["flags"])), "{}")
         mine.append(c)
     acc_all.candidates = []
     acc_all.sample(dict(patterns=len(pats), unbounded_loops=nloops, pump_bound=P, ambiguous=[c["input"]["pattern"][:60] for c in mine]))
